@@ -169,6 +169,40 @@ def convertArgs (cal : Callee) : List Val → Nat → St → Option (List RV) ×
         | (some r, s') => (some (a :: r), s')
         | (none, s') => (none, s')
 
+/-- `f(xs...)` on a fixed-arity function once the spread operand `s2.rv` is evaluated -/
+def spreadFixed (cal : Callee) (nLead numExprs : Nat) (lead : List RV) (s2 : St) : (List RV × Bool) × St :=
+  match s2.rv.v with
+  | .list xs =>
+    if xs.length < cal.numIn - nLead then
+      (([], false), s2.fail ("function wants " ++ toString cal.numIn ++ " arguments but received " ++ toString (numExprs + xs.length - 1)))
+    else
+      (match convertArgs cal (xs.take (cal.numIn - nLead)) nLead s2 with
+       | (some as, s3) => ((lead ++ as, false), s3)
+       | (none, s3) => (([], false), s3))
+  | v => if typeName v == "?" then (([], false), s2.markUnsup "type name of a function value") else
+    (([], false), s2.fail ("call is variadic but last parameter is of type " ++ typeName v))
+
+/-- `f(xs...)` on a variadic function once the spread operand `s2.rv` is evaluated (CallSlice) -/
+def spreadVariadic (lead : List RV) (s2 : St) : (List RV × Bool) × St :=
+  match s2.rv.v with
+  | .list xs => ((lead ++ [⟨false, .list xs⟩], true), s2)
+  | v => if typeName v == "?" then (([], false), s2.markUnsup "type name of a function value") else
+    (([], false), s2.fail ("function wants argument type []interface {} but received type " ++ typeName v))
+
+/-- range checks and result of a two-index slice (three-index slices are outside F0) -/
+def sliceResult (item : Val) (len : Nat) (bi ei : Int) (hasCap : Bool) (s : St) : St :=
+  if ei > len then s.fail "index out of range"
+  else if bi > ei then s.fail "index out of range"
+  else if hasCap then
+    (match item with
+     | .str _ => s.fail "type string does not support cap"
+     | _ => s.markUnsup "three-index slice")
+  else
+    (match item with
+     | .list xs => { s with rv := ⟨false, .list ((xs.drop bi.toNat).take (ei.toNat - bi.toNat))⟩ }
+     | .str bs => { s with rv := ⟨false, .str ((bs.drop bi.toNat).take (ei.toNat - bi.toNat))⟩ }
+     | _ => s)
+
 mutual
 
 /-- invokeExpr -/
@@ -222,11 +256,15 @@ def evalExpr : Nat → Expr → St → St
         if !isNilRV s1.rv then s1 else evalExpr n r s1
       else
         -- an interrupted left side must not be swallowed: poll the context
-        let (c, s2) := s1.poll
+        let pr1 := s1.poll
+        let c := pr1.1
+        let s2 := pr1.2
         if c then { s2 with rv := nilRV, err := some .interrupt }
         else evalExpr n r { s2 with err := none }
     | .array es =>
-      let (vs, s1) := evalList n es s
+      let pr2 := evalList n es s
+      let vs := pr2.1
+      let s1 := pr2.2
       if s1.err.isSome then s1 else { s1 with rv := ⟨false, .list (vs.map (·.v))⟩ }
     | .mapLit ks vs => evalMapLit n ks vs [] s
     | .item x i =>
@@ -255,40 +293,9 @@ def evalExpr : Nat → Expr → St → St
     | .slice x b e c =>
       let s1 := evalExpr n x s
       if s1.err.isSome then s1 else
-      let item := s1.rv.v
-      (match item with
-       | .list _ | .str _ =>
-         let len : Nat := match item with | .list xs => xs.length | .str bs => bs.length | _ => 0
-         -- begin
-         let sb := match b with
-           | none => (some (some (0 : Int)), s1)
-           | some be => let t := evalExpr n be s1; (tryToIntRV t.rv, t)
-         let s2 := sb.2
-         if s2.err.isSome then s2 else
-         (match sb.1 with
-          | none => s2.markUnsup "index conversion"
-          | some none => s2.fail "index must be a number"
-          | some (some bi) =>
-            if bi < 0 then s2.fail "index out of range" else
-            let se := match e with
-              | none => (some (some (len : Int)), s2)
-              | some ee => let t := evalExpr n ee s2; (tryToIntRV t.rv, t)
-            let s3 := se.2
-            if s3.err.isSome then s3 else
-            (match se.1 with
-             | none => s3.markUnsup "index conversion"
-             | some none => s3.fail "index must be a number"
-             | some (some ei) =>
-               if ei > len then s3.fail "index out of range"
-               else if bi > ei then s3.fail "index out of range"
-               else match c with
-                 | some _ => (match item with
-                     | .str _ => s3.fail "type string does not support cap"
-                     | _ => s3.markUnsup "three-index slice")
-                 | none => (match item with
-                     | .list xs => { s3 with rv := ⟨false, .list ((xs.drop bi.toNat).take (ei.toNat - bi.toNat))⟩ }
-                     | .str bs => { s3 with rv := ⟨false, .str ((bs.drop bi.toNat).take (ei.toNat - bi.toNat))⟩ }
-                     | _ => s3)))
+      (match s1.rv.v with
+       | .list xs => sliceBegin n (.list xs) xs.length b e c.isSome s1
+       | .str bs => sliceBegin n (.str bs) bs.length b e c.isSome s1
        | v => s1.fail ("type " ++ v.kind.name ++ " does not support slice operation"))
     | .len e =>
       let s1 := evalExpr n e s
@@ -306,7 +313,9 @@ def evalExpr : Nat → Expr → St → St
       if s2.err.isSome then s2 else opRes s2 (inOp item s2.rv)
     | .letsx lhss rhss => evalLetsx n lhss rhss 0 s
     | .func name params vararg body =>
-      let (id, s1) := s.addClosure ⟨name, params, vararg, body, s.cur⟩
+      let pr3 := s.addClosure ⟨name, params, vararg, body, s.cur⟩
+      let id := pr3.1
+      let s1 := pr3.2
       let s2 := { s1 with rv := ⟨false, .fn id⟩ }
       if name != "" then { s2.define s2.cur name ⟨false, .fn id⟩ with rv := ⟨false, .fn id⟩ } else s2
     | .call name args va go =>
@@ -332,6 +341,41 @@ def evalExpr : Nat → Expr → St → St
        | v => s1.fail ("type " ++ v.kind.name ++ " does not support member operation"))
     | .unsupported k => s.markUnsup k
 
+/-- invokeSliceExpr after the operand: the begin index -/
+def sliceBegin : Nat → Val → Nat → Option Expr → Option Expr → Bool → St → St
+  | 0, _, _, _, _, _, s => outOfFuel s
+  | n + 1, item, len, b, e, hasCap, s1 =>
+    if (evalIndexOpt n b 0 s1).2.err.isSome then (evalIndexOpt n b 0 s1).2 else
+    match (evalIndexOpt n b 0 s1).1 with
+    | none => (evalIndexOpt n b 0 s1).2.markUnsup "index conversion"
+    | some none => (evalIndexOpt n b 0 s1).2.fail "index must be a number"
+    | some (some bi) =>
+      if bi < 0 then (evalIndexOpt n b 0 s1).2.fail "index out of range"
+      else sliceEnd n item len bi e hasCap (evalIndexOpt n b 0 s1).2
+
+/-- invokeSliceExpr: the end index, the range checks and the result -/
+def sliceEnd : Nat → Val → Nat → Int → Option Expr → Bool → St → St
+  | 0, _, _, _, _, _, s => outOfFuel s
+  | n + 1, item, len, bi, e, hasCap, s2 =>
+    if (evalIndexOpt n e (len : Int) s2).2.err.isSome then (evalIndexOpt n e (len : Int) s2).2 else
+    match (evalIndexOpt n e (len : Int) s2).1 with
+    | none => (evalIndexOpt n e (len : Int) s2).2.markUnsup "index conversion"
+    | some none => (evalIndexOpt n e (len : Int) s2).2.fail "index must be a number"
+    | some (some ei) => sliceResult item len bi ei hasCap (evalIndexOpt n e (len : Int) s2).2
+
+/-- an optional slice bound: absent = the default, present = tryToInt of its value -/
+def evalIndexOpt : Nat → Option Expr → Int → St → Option (Option Int) × St
+  | 0, _, _, s => (none, outOfFuel s)
+  | _ + 1, none, d, s => (some (some d), s)
+  | n + 1, some e, _, s => (tryToIntRV (evalExpr n e s).rv, evalExpr n e s)
+
+/-- an optional loop condition: absent = true; evaluated, an error counts as "stop" -/
+def evalCond : Nat → Option Expr → St → Option Bool × St
+  | 0, _, s => (none, outOfFuel s)
+  | _ + 1, none, s => (some true, s)
+  | n + 1, some e, s =>
+    ((if (evalExpr n e s).err.isSome then some false else toBoolRV (evalExpr n e s).rv), evalExpr n e s)
+
 /-- evaluate expressions left to right, stop at the first error -/
 def evalList : Nat → List Expr → St → List RV × St
   | 0, _, s => ([], outOfFuel s)
@@ -339,7 +383,9 @@ def evalList : Nat → List Expr → St → List RV × St
   | n + 1, e :: es, s =>
     let s1 := evalExpr n e s
     if s1.err.isSome then ([], s1) else
-    let (vs, s2) := evalList n es s1
+    let pr4 := evalList n es s1
+    let vs := pr4.1
+    let s2 := pr4.2
     (s1.rv :: vs, s2)
 
 /-- untyped map literal: key_i then value_i, in order -/
@@ -380,19 +426,13 @@ def letExpr : Nat → Expr → St → St
   | 0, _, s => outOfFuel s
   | n + 1, e, s =>
     match e with
-    | .ident name =>
-      (match s.setValue s.cur name s.rv with
-       | some s' => s'
-       | none => s.define s.cur name s.rv)
+    | .ident name => s.assign name s.rv
     | .member x name =>
       let value := s.rv
       let s1 := evalExpr n x s
       if s1.err.isSome then s1 else
       (match s1.rv.v with
-       | .env id =>
-         (match s1.setValue id name value with
-          | some s' => s'
-          | none => { s1 with rv := nilRV, err := some (.error ("undefined symbol '" ++ name ++ "'")) })
+       | .env id => s1.assignIn id name value
        | _ => s1.markUnsup "member assignment")
     | .item _ _ => s.markUnsup "element assignment"
     | .slice _ _ _ _ => s.markUnsup "slice assignment"
@@ -404,75 +444,67 @@ def callValue : Nat → Val → List Expr → Bool → St → St
   | n + 1, f, args, va, s =>
     match calleeOf s f with
     | none =>
-      (match f with
-       | .fn _ | .gofn _ => s.markUnsup "unknown function"
-       | v => s.fail ("cannot call type " ++ v.kind.name))
+      if f.kind = Kind.func then s.markUnsup "unknown function"
+      else s.fail ("cannot call type " ++ f.kind.name)
     | some cal =>
       -- fast path: concrete-signature VM function, exact argument count
       if cal.isVM && !va && !cal.variadic && cal.numIn == args.length && cal.numIn ≤ 4 then
-        let (vs, s1) := evalList n args s
+        let pr5 := evalList n args s
+        let vs := pr5.1
+        let s1 := pr5.2
         if s1.err.isSome then s1 else
         callFn n f vs false { s1 with rv := nilRV }
       else
-        let (r, s1) := makeCallArgs n cal args va s
+        let pr6 := makeCallArgs n cal args va s
+        let r := pr6.1
+        let s1 := pr6.2
         if s1.err.isSome then s1 else
         callFn n f r.1 r.2 { s1 with rv := nilRV }
 
-/-- makeCallArgs: arguments for the four call shapes; `.2` = use CallSlice -/
+/-- makeCallArgs: arguments for the four call shapes; `.1.2` = use CallSlice -/
 def makeCallArgs : Nat → Callee → List Expr → Bool → St → (List RV × Bool) × St
   | 0, _, _, _, s => (([], false), outOfFuel s)
   | n + 1, cal, exprs, va, s =>
-    if cal.numIn < 1 then (([], false), s) else
-    let numExprs := exprs.length
-    if va && numExprs < 1 then (([], false), s.fail "call is variadic but has no arguments") else
-    if arityBad cal.variadic va cal.numIn numExprs then
-      (([], false), s.fail ("function wants " ++ toString cal.numIn ++ " arguments but received " ++ toString numExprs))
+    if cal.numIn < 1 then (([], false), s)
+    else if va && exprs.length < 1 then (([], false), s.fail "call is variadic but has no arguments")
+    else if arityBad cal.variadic va cal.numIn exprs.length then
+      (([], false), s.fail ("function wants " ++ toString cal.numIn ++ " arguments but received " ++ toString exprs.length))
     else
       -- all arguments except the last one
-      let nLead := min (cal.numIn - 1) (numExprs - 1)
-      let (lead, s1) := evalArgs n cal (exprs.take nLead) 0 s
-      if s1.err.isSome then (([], false), s1) else
-      let rest := exprs.drop nLead
-      if !cal.variadic && !va then
-        -- plain call of a fixed-arity function: the last argument
-        let (l, s2) := evalArgs n cal rest nLead s1
-        if s2.err.isSome then (([], false), s2) else ((lead ++ l, false), s2)
-      else if !cal.variadic && va then
-        -- spread call of a fixed-arity function
-        (match rest with
-         | [] => (([], false), s1.markUnsup "makeCallArgs")
-         | last :: _ =>
-           let s2 := evalExpr n last s1
-           if s2.err.isSome then (([], false), s2) else
-           (match s2.rv.v with
-            | .list xs =>
-              let need := cal.numIn - nLead
-              if xs.length < need then
-                (([], false), s2.fail ("function wants " ++ toString cal.numIn ++ " arguments but received " ++ toString (numExprs + xs.length - 1)))
-              else
-                (match convertArgs cal (xs.take need) nLead s2 with
-                 | (some as, s3) => ((lead ++ as, false), s3)
-                 | (none, s3) => (([], false), s3))
-            | v => if typeName v == "?" then (([], false), s2.markUnsup "type name of a function value") else
-              (([], false), s2.fail ("call is variadic but last parameter is of type " ++ typeName v))))
-      else
-        -- variadic function
-        (match rest with
-         | [] => ((lead, false), s1)
-         | last :: _ =>
-           if cal.numIn > numExprs then
-             let (l, s2) := evalArgs n cal [last] nLead s1
-             if s2.err.isSome then (([], false), s2) else ((lead ++ l, false), s2)
-           else if !va then
-             let (l, s2) := evalVarArgs n cal rest s1
-             if s2.err.isSome then (([], false), s2) else ((lead ++ l, false), s2)
-           else
-             let s2 := evalExpr n last s1
-             if s2.err.isSome then (([], false), s2) else
-             (match s2.rv.v with
-              | .list xs => ((lead ++ [⟨false, .list xs⟩], true), s2)
-              | v => if typeName v == "?" then (([], false), s2.markUnsup "type name of a function value") else
-                (([], false), s2.fail ("function wants argument type []interface {} but received type " ++ typeName v))))
+      let lead := evalArgs n cal (exprs.take (min (cal.numIn - 1) (exprs.length - 1))) 0 s
+      if lead.2.err.isSome then (([], false), lead.2)
+      else argsTail n cal (exprs.drop (min (cal.numIn - 1) (exprs.length - 1))) (min (cal.numIn - 1) (exprs.length - 1))
+            va exprs.length lead.1 lead.2
+
+/-- the last argument(s) of makeCallArgs: `rest` = expressions from index `nLead` on -/
+def argsTail : Nat → Callee → List Expr → Nat → Bool → Nat → List RV → St → (List RV × Bool) × St
+  | 0, _, _, _, _, _, _, s => (([], false), outOfFuel s)
+  | n + 1, cal, rest, nLead, va, numExprs, lead, s1 =>
+    if !cal.variadic && !va then
+      -- plain call of a fixed-arity function: the last argument
+      let l := evalArgs n cal rest nLead s1
+      if l.2.err.isSome then (([], false), l.2) else ((lead ++ l.1, false), l.2)
+    else if !cal.variadic && va then
+      -- spread call of a fixed-arity function
+      (match rest with
+       | [] => (([], false), s1.markUnsup "makeCallArgs")
+       | last :: _ =>
+         if (evalExpr n last s1).err.isSome then (([], false), evalExpr n last s1)
+         else spreadFixed cal nLead numExprs lead (evalExpr n last s1))
+    else
+      -- variadic function
+      (match rest with
+       | [] => ((lead, false), s1)
+       | last :: _ =>
+         if cal.numIn > numExprs then
+           let l := evalArgs n cal [last] nLead s1
+           if l.2.err.isSome then (([], false), l.2) else ((lead ++ l.1, false), l.2)
+         else if !va then
+           let l := evalVarArgs n cal rest s1
+           if l.2.err.isSome then (([], false), l.2) else ((lead ++ l.1, false), l.2)
+         else
+           if (evalExpr n last s1).err.isSome then (([], false), evalExpr n last s1)
+           else spreadVariadic lead (evalExpr n last s1))
 
 /-- evaluate fixed arguments starting at parameter index `i`, converting each for a Go function -/
 def evalArgs : Nat → Callee → List Expr → Nat → St → List RV × St
@@ -482,7 +514,9 @@ def evalArgs : Nat → Callee → List Expr → Nat → St → List RV × St
     let s1 := evalExpr n e s
     if s1.err.isSome then ([], s1) else
     if cal.isVM then
-      let (vs, s2) := evalArgs n cal es (i + 1) s1
+      let pr7 := evalArgs n cal es (i + 1) s1
+      let vs := pr7.1
+      let s2 := pr7.2
       (s1.rv :: vs, s2)
     else
       match convertTo s1.rv (cal.paramTy i) with
@@ -491,7 +525,9 @@ def evalArgs : Nat → Callee → List Expr → Nat → St → List RV × St
         if typeName s1.rv.v == "?" then ([], s1.markUnsup "type name of a function value") else
         ([], s1.fail ("function wants argument type " ++ tyName (cal.paramTy i) ++ " but received type " ++ typeName s1.rv.v))
       | some (.ok a) =>
-        let (vs, s2) := evalArgs n cal es (i + 1) { s1 with rv := a }
+        let pr8 := evalArgs n cal es (i + 1) { s1 with rv := a }
+        let vs := pr8.1
+        let s2 := pr8.2
         (a :: vs, s2)
 
 /-- evaluate the arguments that form the variadic tail, each converted to the element type -/
@@ -507,7 +543,9 @@ def evalVarArgs : Nat → Callee → List Expr → St → List RV × St
       if typeName s1.rv.v == "?" then ([], s1.markUnsup "type name of a function value") else
       ([], s1.fail ("function wants argument type []" ++ tyName (cal.paramTy (cal.numIn - 1)) ++ " but received type " ++ typeName s1.rv.v))
     | some (.ok a) =>
-      let (vs, s2) := evalVarArgs n cal es { s1 with rv := a }
+      let pr9 := evalVarArgs n cal es { s1 with rv := a }
+      let vs := pr9.1
+      let s2 := pr9.2
       (a :: vs, s2)
 
 /-- f.Call(args) / f.CallSlice(args) + processCallReturnValues -/
@@ -526,7 +564,9 @@ def callFn : Nat → Val → List RV → Bool → St → St
               | some ⟨_, .list xs⟩ => args.dropLast ++ xs.map elemRV
               | _ => args)
            else args
-         let (tr, res) := goRun name flat
+         let pr10 := goRun name flat
+         let tr := pr10.1
+         let res := pr10.2
          let s1 := { s with trace := s.trace ++ tr.toArray }
          let _ := g
          match res with
@@ -547,8 +587,10 @@ def callFn : Nat → Val → List RV → Bool → St → St
          let actual := fixedArgs ++ tail
          if actual.length < c.params.length then s.markUnsup "too few arguments reached a VM function" else
          -- runVMFunc: fresh scope under the captured scope, fresh registers
-         let (sc, s1) := s.newScope c.env
-         let s2 := (c.params.zip actual).foldl (fun st pa => st.define sc pa.1 pa.2) s1
+         let pr11 := s.newScope c.env
+         let sc := pr11.1
+         let s1 := pr11.2
+         let s2 := s1.defineAll sc (c.params.zip actual)
          let callee := { s2 with cur := sc, rv := nilRV, err := none, defers := [] }
          let r1 := execStmt n c.body callee
          let r2 := if r1.defers.isEmpty then r1 else runDefers n r1.defers.reverse r1.rv r1.err { r1 with defers := [] }
@@ -576,7 +618,9 @@ def runDefers : Nat → List Deferred → RV → Option Err → St → St
 def execStmt : Nat → Stmt → St → St
   | 0, _, s => outOfFuel s
   | n + 1, st, s0 =>
-    let (c, s) := s0.poll
+    let pr12 := s0.poll
+    let c := pr12.1
+    let s := pr12.2
     if c then { s with rv := nilRV, err := some .interrupt } else
     match st with
     | .nilS => s
@@ -584,22 +628,26 @@ def execStmt : Nat → Stmt → St → St
     | .expr e => evalExpr n e s
     | .varS names es =>
       if names.length < 1 || es.length < 1 then s.fail "invalid operation" else
-      let (vs, s1) := evalList n es s
+      let pr13 := evalList n es s
+      let vs := pr13.1
+      let s1 := pr13.2
       if s1.err.isSome then s1 else
       if vs.length == 1 && names.length > 1 then
         (match (vs.headD nilRV).v with
          | .list (x :: xs) =>
-           let s2 := (names.zip (x :: xs)).foldl (fun st p => st.define st.cur p.1 (elemRV p.2)) s1
+           let s2 := s1.defineAll s1.cur (names.zip ((x :: xs).map elemRV))
            { s2 with rv := elemRV ((x :: xs).getLastD .nil) }
          | _ =>
-           let s2 := (names.zip vs).foldl (fun st p => st.define st.cur p.1 p.2) s1
+           let s2 := s1.defineAll s1.cur (names.zip vs)
            { s2 with rv := vs.getLastD nilRV })
       else
-        let s2 := (names.zip vs).foldl (fun st p => st.define st.cur p.1 p.2) s1
+        let s2 := s1.defineAll s1.cur (names.zip vs)
         { s2 with rv := vs.getLastD nilRV }
     | .lets lhss rhss =>
       if lhss.length < 1 || rhss.length < 1 then s.fail "invalid operation" else
-      let (vs, s1) := evalList n rhss s
+      let pr14 := evalList n rhss s
+      let vs := pr14.1
+      let s1 := pr14.2
       if s1.err.isSome then s1 else
       if vs.length == 1 && lhss.length > 1 then
         (match (vs.headD nilRV).v with
@@ -619,13 +667,17 @@ def execStmt : Nat → Stmt → St → St
       (match toBoolRV s1.rv with
        | none => s1.markUnsup "toBool"
        | some true =>
-         let (sc, s2) := s1.newScope env
+         let pr15 := s1.newScope env
+         let sc := pr15.1
+         let s2 := pr15.2
          let s3 := execStmt n t { s2 with rv := nilRV, cur := sc }
          { s3 with cur := env }
        | some false => execElifs n elifs els env s1)
     | .tryS t var c f =>
       let env := s.cur
-      let (sc, s1) := s.newScope env
+      let pr16 := s.newScope env
+      let sc := pr16.1
+      let s1 := pr16.2
       let s2 := execStmt n t { s1 with cur := sc }
       let s3 :=
         match s2.err with
@@ -644,7 +696,9 @@ def execStmt : Nat → Stmt → St → St
          { s4 with cur := env })
     | .loop c b =>
       let env := s.cur
-      let (sc, s1) := s.newScope env
+      let pr17 := s.newScope env
+      let sc := pr17.1
+      let s1 := pr17.2
       let s2 := loopIter n c b { s1 with cur := sc }
       (match s2.err with
        | some .ret => { s2 with cur := env }
@@ -652,7 +706,9 @@ def execStmt : Nat → Stmt → St → St
        | _ => { s2 with rv := nilRV, cur := env })
     | .cfor init c p b =>
       let env := s.cur
-      let (sc, s1) := s.newScope env
+      let pr18 := s.newScope env
+      let sc := pr18.1
+      let s1 := pr18.2
       let s2 := match init with
         | .nilS => { s1 with cur := sc }
         | i => execStmt n i { s1 with cur := sc }
@@ -666,7 +722,9 @@ def execStmt : Nat → Stmt → St → St
       let s1 := evalExpr n e s
       if s1.err.isSome then s1 else
       let env := s1.cur
-      let (sc, s2) := s1.newScope env
+      let pr19 := s1.newScope env
+      let sc := pr19.1
+      let s2 := pr19.2
       let s3 := { s2 with cur := sc }
       (match s1.rv.v with
        | .list xs =>
@@ -689,14 +747,18 @@ def execStmt : Nat → Stmt → St → St
        | none => s1.markUnsup "throw value formatting")
     | .module name b =>
       let e := s.cur
-      let (sc, s1) := s.newScope e
+      let pr20 := s.newScope e
+      let sc := pr20.1
+      let s1 := pr20.2
       let s2 := s1.define e name ⟨false, .env sc⟩
       let s3 := execStmt n b { s2 with cur := sc }
       let s4 := { s3 with cur := e }
       if s4.err.isSome then s4 else { s4 with rv := nilRV }
     | .switch e cases dflt =>
       let env := s.cur
-      let (sc, s1) := s.newScope env
+      let pr21 := s.newScope env
+      let sc := pr21.1
+      let s1 := pr21.2
       let s2 := evalExpr n e { s1 with cur := sc }
       if s2.err.isSome then { s2 with cur := env } else
       let r := execCases n s2.rv cases dflt s2
@@ -739,23 +801,29 @@ def assignAll : Nat → List Expr → List RV → St → St
 
 /-- the else-if chain and the else branch of runIfStmt (`env` = scope before the statement) -/
 def execElifs : Nat → List (Expr × Stmt) → Stmt → Nat → St → St
-  | 0, _, _, _, s => outOfFuel s
+  | 0, _, _, env, s => { outOfFuel s with cur := env }
   | n + 1, [], els, env, s =>
     (match els with
      | .nilS => { s with cur := env }
      | e =>
-       let (sc, s1) := s.newScope env
+       let pr22 := s.newScope env
+       let sc := pr22.1
+       let s1 := pr22.2
        let s2 := execStmt n e { s1 with rv := nilRV, cur := sc }
        { s2 with cur := env })
   | n + 1, (c, t) :: rest, els, env, s =>
-    let (sc, s1) := s.newScope env
+    let pr23 := s.newScope env
+    let sc := pr23.1
+    let s1 := pr23.2
     let s2 := evalExpr n c { s1 with cur := sc }
     if s2.err.isSome then { s2 with cur := env } else
     (match toBoolRV s2.rv with
-     | none => s2.markUnsup "toBool"
+     | none => { (s2.markUnsup "toBool") with cur := env }
      | some false => execElifs n rest els env s2
      | some true =>
-       let (sc2, s3) := s2.newScope env
+       let pr24 := s2.newScope env
+       let sc2 := pr24.1
+       let s3 := pr24.2
        let s4 := execStmt n t { s3 with rv := nilRV, cur := sc2 }
        { s4 with cur := env })
 
@@ -763,11 +831,11 @@ def execElifs : Nat → List (Expr × Stmt) → Stmt → Nat → St → St
 def loopIter : Nat → Option Expr → Stmt → St → St
   | 0, _, _, s => outOfFuel s
   | n + 1, c, b, s0 =>
-    let (cc, s) := s0.poll
+    let pr25 := s0.poll
+    let cc := pr25.1
+    let s := pr25.2
     if cc then { s with rv := nilRV, err := some .interrupt } else
-    let sc := match c with
-      | none => (some true, s)
-      | some ce => let t := evalExpr n ce s; (if t.err.isSome then some false else toBoolRV t.rv, t)
+    let sc := evalCond n c s
     let s1 := sc.2
     if s1.err.isSome then s1 else
     match sc.1 with
@@ -786,11 +854,11 @@ def loopIter : Nat → Option Expr → Stmt → St → St
 def cforIter : Nat → Option Expr → Option Expr → Stmt → St → St
   | 0, _, _, _, s => outOfFuel s
   | n + 1, c, p, b, s0 =>
-    let (cc, s) := s0.poll
+    let pr26 := s0.poll
+    let cc := pr26.1
+    let s := pr26.2
     if cc then { s with rv := nilRV, err := some .interrupt } else
-    let sc := match c with
-      | none => (some true, s)
-      | some ce => let t := evalExpr n ce s; (if t.err.isSome then some false else toBoolRV t.rv, t)
+    let sc := evalCond n c s
     let s1 := sc.2
     if s1.err.isSome then s1 else
     match sc.1 with
@@ -814,7 +882,9 @@ def forSlice : Nat → String → Stmt → List Val → St → St
   | 0, _, _, _, s => outOfFuel s
   | _, _, _, [], s => { s with rv := nilRV }
   | n + 1, v, b, x :: xs, s0 =>
-    let (cc, s) := s0.poll
+    let pr27 := s0.poll
+    let cc := pr27.1
+    let s := pr27.2
     if cc then { s with rv := nilRV, err := some .interrupt } else
     let s1 := s.define s.cur v ⟨false, x⟩
     let s2 := execStmt n b s1
@@ -830,7 +900,9 @@ def forMap : Nat → List String → Stmt → List (Val × Val) → St → St
   | 0, _, _, _, s => outOfFuel s
   | _, _, _, [], s => { s with rv := nilRV }
   | n + 1, vars, b, (k, v) :: rest, s0 =>
-    let (cc, s) := s0.poll
+    let pr28 := s0.poll
+    let cc := pr28.1
+    let s := pr28.2
     if cc then { s with rv := nilRV, err := some .interrupt } else
     let s1 := s.define s.cur (vars.headD "_") ⟨true, k⟩
     let s1' := match vars with
@@ -852,7 +924,9 @@ def execReturn : Nat → List Expr → St → St
     | [] => { s with rv := nilRV }
     | [e] => evalExpr n e s
     | _ =>
-      let (vs, s1) := evalList n es s
+      let pr29 := evalList n es s
+      let vs := pr29.1
+      let s1 := pr29.2
       if s1.err.isSome then s1 else { s1 with rv := ⟨false, .list (vs.map (·.v))⟩ }
 
 /-- the case loop of runSwitchStmt -/
@@ -863,7 +937,9 @@ def execCases : Nat → RV → List (List Expr × Stmt) → Stmt → St → St
      | .nilS => { s with rv := nilRV }
      | d => execStmt n d s)
   | n + 1, subject, (es, body) :: rest, dflt, s =>
-    let (r, s1) := matchCase n subject es s
+    let pr30 := matchCase n subject es s
+    let r := pr30.1
+    let s1 := pr30.2
     if s1.err.isSome then s1 else
     if r then execStmt n body s1 else execCases n subject rest dflt s1
 
@@ -885,11 +961,12 @@ def registerDefer : Nat → Val → List Expr → Bool → St → St
   | n + 1, f, args, va, s =>
     match calleeOf s f with
     | none =>
-      (match f with
-       | .fn _ | .gofn _ => s.markUnsup "unknown function"
-       | v => s.fail ("cannot call type " ++ v.kind.name))
+      if f.kind = Kind.func then s.markUnsup "unknown function"
+      else s.fail ("cannot call type " ++ f.kind.name)
     | some cal =>
-      let (r, s1) := makeCallArgs n cal args va s
+      let pr31 := makeCallArgs n cal args va s
+      let r := pr31.1
+      let s1 := pr31.2
       if s1.err.isSome then s1 else
       { s1 with defers := s1.defers ++ [⟨f, r.1, r.2⟩], rv := nilRV }
 
